@@ -293,7 +293,7 @@ MUTANTS = [
      "def adc(info, a, b):\n    e= []\n    c = ExprOp('+',\n               a,\n               b)", 'C08.D1'),
     ('movs-nodf', 'miasmx/arch/ia32_sem.py', "    e.append(ExprAff(b.arg, ExprCond(df,\n                                     ExprOp('-', b.arg, ExprInt_from(b.arg, off)),\n                                     ExprOp('+', b.arg, ExprInt_from(b.arg, off)))))\n\n    return e",
      "    e.append(ExprAff(b.arg, ExprOp('+', b.arg, ExprInt_from(b.arg, off))))\n    e[1] = ExprAff(a.arg, ExprOp('+', a.arg, ExprInt_from(a.arg, off)))\n\n    return e", 'C08.D1'),
-    ('xchg-half', 'miasmx/arch/ia32_sem.py', "    e.append(ExprAff(a, b))\n    e.append(ExprAff(b, a))\n    return e\n\ndef movzx", "    e.append(ExprAff(a, b))\n    return e\n\ndef movzx", 'C08.D1'),
+    ('xchg-half', 'miasmx/arch/ia32_sem.py', "    return [ExprAff(a, va), ExprAff(b, vb)]\n\ndef xchg", "    return [ExprAff(a, va)]\n\ndef xchg", 'C08.D1'),
     ('comis-nozf', 'miasmx/arch/ia32_sem.py', "    e.append(ExprAff(zf, ExprOp('MMX', a, b)))\n    e.append(ExprAff(cf, ExprOp('MMX', a, b)))", "    e.append(ExprAff(cf, ExprOp('MMX', a, b)))", 'C08.D2'),
     ('push-noesp', 'miasmx/arch/ia32_sem.py', "    c = ExprOp('-', esp, ExprInt32(s/8))\n    e.append(ExprAff(esp, c))\n    e.append(ExprAff(ExprMem(c, a.get_size()), a))", "    c = ExprOp('-', esp, ExprInt32(s/8))\n    e.append(ExprAff(ExprMem(c, a.get_size()), a))", 'C08.D1'),
     ('lods-noeax', 'miasmx/arch/ia32_sem.py', "    e.append(ExprAff(eax[0:a.get_size()], a))\n", "    e.append(ExprAff(edx[0:a.get_size()], a))\n", 'C08.D1'),
